@@ -702,8 +702,7 @@ class Engine:
                 for k in keys:
                     o[k] = self._mergevals(conds, [c[k] for c in cs])
             elif isinstance(o, list):
-                for j in range(len(cs[0])):
-                    o[j] = self._mergevals(conds, [c[j] for c in cs])
+                o[:] = [self._mergevals(conds, [c[j] for c in cs]) for j in range(len(cs[0]))]
             else:
                 o.merge(conds, cs, self._mergevals)
         # unpred flag
